@@ -3,6 +3,7 @@
 -/
 import Jb.Proofs.Engine
 import Jb.Proofs.Shift
+import Jb.Proofs.GvShift
 
 set_option linter.unusedSectionVars false
 
@@ -58,5 +59,22 @@ theorem trajectory_shift (windows : List (List K)) (obs : List (List (MeanVari K
     (hm : calcWuwWum windows obs = some m) (hm' : calcWuwWum windows (shiftStatic obs h) = some m') :
     m'.solve = m.solve.map (· + h) :=
   mlpg_shift windows obs T hstatic hlen hobs hedge hnonneg hpos hsum h m m' hm hm'
+
+/-- **… and through the global-variance iteration as well.** `MlpgMatrix::par` — the ML solution followed by
+    `conv_gv` and the five Newton-like steps with their adaptive step size — commutes with the shift: the
+    variance statistics ignore it, `A·par − W'Pμ` ignores it, and the objective changes by a constant that
+    does not depend on the iterate, so the step-size decisions are the same. -/
+theorem trajectory_shift_with_gv (windows : List (List K)) (obs : List (List (MeanVari K))) (T : Nat)
+    (hstatic : windows.head? = some [1]) (hlen : windows.length = obs.length)
+    (hobs : ∀ o ∈ obs, o.length = T) (hedge : EdgeZero windows obs T)
+    (hnonneg : ∀ o ∈ obs, ∀ mv ∈ o, 0 ≤ mv.vari) (hpos : ∀ mv ∈ obs.headD [], 0 < mv.vari)
+    (hsum : ∀ w ∈ windows.tail, w.sum = 0)
+    (h : K) (m m' : MlpgMatrix K)
+    (hm : calcWuwWum windows obs = some m) (hm' : calcWuwWum windows (shiftStatic obs h) = some m')
+    (gv : Option (List (MeanVari K) × List Bool)) (vi : Nat) (gw : K) (durs : List Nat) (mask : List Bool)
+    (hmask : (mask.filter id).length = T)
+    (hsw : ∀ g sw, gv = some (g, sw) → (filterBy (expand sw durs) mask).length = T) :
+    m'.par gv vi gw durs mask = (m.par gv vi gw durs mask).map (· + h) :=
+  par_shift windows obs T hstatic hlen hobs hedge hnonneg hpos hsum h m m' hm hm' gv vi gw durs mask hmask hsw
 
 end Jb.C15
